@@ -2,6 +2,7 @@
 //! tick patches, state roots and footprint enforcement (C01 C02 C03 C04 C06 C14).
 
 mod c01;
+mod c02;
 mod c03;
 mod c04;
 mod c06;
@@ -15,6 +16,7 @@ fn main() {
     let args = verif_core::Args::parse();
     let code = match args.prop.as_str() {
         "C01" => c01::run(&args),
+        "C02" => c02::run(&args),
         "C03" => c03::run(&args),
         "C04" => c04::run(&args),
         "C06" => c06::run(&args),
